@@ -8,6 +8,7 @@ import (
 	"bytes"
 	"crypto/ecdsa"
 	"fmt"
+	"github.com/idena-network/idena-go/rpc"
 	"math/big"
 	"runtime/debug"
 	"sort"
@@ -106,7 +107,12 @@ func MkCfg(o Opts) *config.Config {
 		GenesisConf: &config.GenesisConf{Alloc: alloc, GodAddress: o.God, FirstCeremonyTime: fc},
 		Validation:  v, Blockchain: &config.BlockchainConfig{StoreCertRange: 2},
 		OfflineDetection: config.GetDefaultOfflineDetectionConfig(), Mempool: config.GetDefaultMempoolConfig(),
-		IsDebug: true}
+		// the sub-configurations a default node configuration has (config.getDefaultConfig): code that reads them must not
+		// meet nil (the ceremony's timer goroutine reads Sync every second of real time, its broadcasts read RPC)
+		Sync:     &config.SyncConfig{FastSync: true, AllFlipsLoadingTime: 2 * time.Hour},
+		RPC:      rpc.GetDefaultRPCConfig("localhost", 9009),
+		IpfsConf: config.GetDefaultIpfsConfig(),
+		IsDebug:  true}
 	if o.Tweak != nil {
 		o.Tweak(cfg)
 	}
